@@ -26,7 +26,7 @@ SCOPE = {"quick": "stream A (labels / order / observed): 14 key forms - float ar
                   "x every key sequence over {null,a,b,c} with n<=3 (n<=2 for categorical Series, one-key dict, polars Series, DataFrame keys), i.e. every first-appearance order; several keys: every sequence of 5 designed rows "
                   "(a null in each position, shared first key) n<=3, or of 6 rows n<=2 plus n=3 with the first row fixed; x sort on/off x observed_only on/off x {no mask: 8 reductions; every boolean mask "
                   "(3 designated masks at n=3 for several keys): size/sum/first} x value nulls {none; all rows of one label null (float, Categorical, 2-key dict forms)}; "
-                  "stream B (containers / naming / column independence): 17 value containers (array, named/unnamed Series, polars Series, list of 1/2, tuple, list of named Series, list of same-named Series, dict of 1/2, "
+                  "stream B (containers / naming / column independence): 20 value containers (array, named/unnamed Series, a Series named 0, a frame with integer column labels, a dict with integer keys, polars Series, list of 1/2, tuple, list of named Series, list of same-named Series, dict of 1/2, "
                   "DataFrame of 1/2/3 columns, 2-D array of 2/1 columns, polars DataFrame) on one GroupBy x 5 key forms x 6 designed key sequences x sort x {observed_only on/off without mask; observed_only=False with a mask "
                   "and an all-null label} x {count,sum,mean,first} (+ var, median for observed_only=True without mask), every column compared with the same call on that input alone; seeded random cases up to 16 rows",
          "thorough": "as quick with n<=4 for the single-key forms of stream A (n<=3 for the naming forms and several keys), stream B over every key sequence n<=3 (n<=2 for several keys) incl. masks with observed_only=True, random cases up to 48 rows"}
@@ -50,7 +50,8 @@ SINGLE_ALPHA = {"float": [None, 0, 1, 2], "str_series": [None, 0, 1, 2], "int": 
                 "pl_series": [0, 1, 2], "int_thr": [0, 1, 2], "pac_float": [0, 1, 2]}
 A_KINDS = ["float", "str_series", "int", "bool", "cat", "cat_series", "dict1", "pl_series", "int_thr", "pac_float", "two", "two_df", "two_cat", "three"]
 B_KINDS = ["float", "str_series", "cat", "two", "two_cat"]
-CONTAINERS = ["arr", "series_named", "series_unnamed", "list1", "list2", "tuple2", "list_named", "list_dup", "dict1", "dict2", "df1", "df2", "df3", "2d", "2d1", "pl_series", "pl_df"]
+CONTAINERS = ["arr", "series_named", "series_unnamed", "list1", "list2", "tuple2", "list_named", "list_dup", "dict1", "dict2", "df1", "df2", "df3", "2d", "2d1", "pl_series", "pl_df",
+              "series_named0", "df_intcols", "dict_intkeys"]          # input names that are falsy but not None (0, False): still names
 
 
 # ----------------------------------------------------------------------------- keys
@@ -144,6 +145,9 @@ def make_container(ckind, f, i, g):
     if ckind == "df3": d = pd.DataFrame({"z": g, "y": f, "x": i}); return d, [("pd:g", d["z"]), ("pd:f", d["y"]), ("pd:i", d["x"])], ["z", "y", "x"], None, False
     if ckind == "2d": a = np.column_stack([f, g]); return a, [("np:f", a[:, 0]), ("np:g", a[:, 1])], [None, None], None, False
     if ckind == "2d1": a = f.reshape(-1, 1); return a, [("np:f", a[:, 0])], [None], None, False
+    if ckind == "series_named0": s = S(f, 0); return s, [("pd:f", s)], None, 0, True
+    if ckind == "df_intcols": d = pd.DataFrame(np.column_stack([f, g])); return d, [("pd:f", d[0]), ("pd:g", d[1])], [0, 1], None, False
+    if ckind == "dict_intkeys": return {1: f, 0: i}, [("np:f", f), ("np:i", i)], [1, 0], None, False
     if ckind == "pl_df": d = pl.DataFrame({"y": f, "x": i}); return d, [("pl:f", d["y"]), ("pl:i", d["x"])], ["y", "x"], None, False
     raise ValueError(ckind)
 
@@ -335,7 +339,7 @@ def check_case(sess, case):
                 rec("raises", fn, f"aligned inputs in a supported container must not fail: {type(ex).__name__}", str(ex)[:200]); continue
             if single:
                 if not isinstance(res, pd.Series): rec("post", fn, "a single 1-D values input (or size) gives a Series", {"got": type(res).__name__, "container": ckind}); continue
-                if res.name != sname: rec("post", fn, "the Series is named like the input (unnamed input -> no name)", {"got": str(res.name), "expected": sname})
+                if res.name != sname or isinstance(res.name, str) != isinstance(sname, str): rec("post", fn, "the Series is named like the input (unnamed input -> no name)", {"got": str(res.name), "expected": sname})
                 if exp_labels is not None and _index_clauses(rec, fn, res, exp_labels, names, nkeys, FAMILY[kkind]) and not obs: _neutral_clause(rec, fn, op, res, exp_labels, sel)
                 continue
             if not isinstance(res, pd.DataFrame):
@@ -343,7 +347,7 @@ def check_case(sess, case):
             if res.shape[1] != len(alone):
                 rec("post", fn, "the DataFrame has one column per input" + (" (inputs sharing a name must not collapse)" if ckind == "list_dup" else ""), {"got_columns": str(list(res.columns)), "inputs": len(alone), "container": ckind}); continue
             got = list(res.columns)
-            if any(w is not None and w != c for w, c in zip(colnames, got)): rec("post", fn, "columns come in input order and carry the input names", {"got": str(got), "expected": str(colnames)})
+            if any(w is not None and (w != c or isinstance(w, str) != isinstance(c, str)) for w, c in zip(colnames, got)): rec("post", fn, "columns come in input order and carry the input names", {"got": str(got), "expected": str(colnames)})
             if exp_labels is not None:
                 if not _index_clauses(rec, fn, res, exp_labels, names, nkeys, FAMILY[kkind]): continue
                 if not obs:
